@@ -755,7 +755,71 @@ example :
       = [.ok, .ok, .returned 7, .ok] := by
   decide
 
+/-! ## the detach flushes before anyone can see the global detached -/
+
+theorem flushOrdered_locked (evs : List Micro) :
+    ∀ m : MState, m.dropping = [] → locked evs = true → flushOrdered m evs = true := by
+  induction evs using locked.induct with
+  | case1 => intro m _ _; rfl
+  | case2 c o rest ih =>
+    intro m hd hl
+    simp only [locked] at hl
+    simp only [flushOrdered, hd, List.isEmpty_nil, Bool.or_true, Bool.true_and]
+    exact ih _ (by simpa [microStep] using hd) hl
+  | case3 c c' rest ih =>
+    intro m hd hl
+    simp only [locked] at hl
+    simp only [flushOrdered, Bool.true_and]
+    apply ih _ _ hl
+    cases h : m.st.handle <;> simp [microStep, h, hd]
+  | case4 c rest hne =>
+    intro m _ hl
+    cases rest with
+    | nil => simp [locked] at hl
+    | cons ev rest' =>
+      cases ev with
+      | dropPair c' => exact absurd rfl (hne c' rest')
+      | op _ _ => simp [locked] at hl
+      | take _ => simp [locked] at hl
+  | case5 c rest ih =>
+    intro m hd hl
+    simp only [locked] at hl
+    simp only [flushOrdered, Bool.true_and]
+    exact ih _ (by simp [microStep, hd]) hl
+
+/-- **C17 routing is restored only after the flush.** In the micro-step model *with readers* (any
+operations of any threads, `append` / `try_append` / `sink()` / `try_sink()` / `is_attached` /
+`attach` / test-sink installs, interleaved anywhere the locks allow): if the taken pair is dropped
+while the write lock of the `take` is still held — the code's detach, `locked` schedules: nothing
+takes effect between `take` and `dropPair` — then every operation that observes the detached state
+(entry handed back, `None`, `is_attached() = false`, the not-attached panic, a successful
+re-attach) takes effect after the detached sink's flush has completed. Together with
+`c17_detach_attach_linearizable` (`linearize` of a locked schedule is the schedule with each
+`take · dropPair` read as one atomic `dropAttach`): the detach is atomic, flush included. -/
+theorem c17_detach_flushes_before_detached_is_observed (st : State) (evs : List Micro)
+    (h : locked evs = true) : flushOrdered ⟨st, []⟩ evs = true :=
+  flushOrdered_locked evs ⟨st, []⟩ rfl h
+
+/-- **Witness: take under the lock, drop the pair after releasing it.** The reader's `try_append`
+takes effect between `take` and `dropPair`: it is handed its entry back while the detached sink is
+still flushing (`flushOrdered = false`), although results and final state are those of a
+sequential order (`c17_detach_attach_linearizable`: nothing is lost or misrouted — the violation is
+one of ordering only). The locked schedule of the same operations is flush-ordered. -/
+example :
+    flushOrdered ⟨State.init none, []⟩
+      [.op ⟨0, none⟩ (.attach 1), .take ⟨0, none⟩, .op ⟨1, none⟩ (.tryAppend 7), .dropPair ⟨0, none⟩] = false ∧
+    flushOrdered ⟨State.init none, []⟩
+      [.op ⟨0, none⟩ (.attach 1), .take ⟨0, none⟩, .op ⟨1, none⟩ (.attach 2), .dropPair ⟨0, none⟩] = false ∧
+    (microRun ⟨State.init none, []⟩
+      [.op ⟨0, none⟩ (.attach 1), .take ⟨0, none⟩, .op ⟨1, none⟩ (.tryAppend 7), .dropPair ⟨0, none⟩]).2
+      = [.ok, .ok, .returned 7] ∧
+    locked [.op ⟨0, none⟩ (.attach 1), .take ⟨0, none⟩, .dropPair ⟨0, none⟩, .op ⟨1, none⟩ (.tryAppend 7)] = true ∧
+    flushOrdered ⟨State.init none, []⟩
+      [.op ⟨0, none⟩ (.attach 1), .take ⟨0, none⟩, .dropPair ⟨0, none⟩, .op ⟨1, none⟩ (.tryAppend 7)] = true := by
+  decide
+
 /-! ## non-vacuity -/
+
 
 
 
@@ -818,3 +882,4 @@ end Global
 #print axioms Global.c17_returned_then_attach_ok
 #print axioms Global.c17_readers_neutral
 #print axioms Global.c17_drop_rt_effective
+#print axioms Global.c17_detach_flushes_before_detached_is_observed
